@@ -425,7 +425,7 @@ def _crit(part):
 
 
 def run(ctx):
-    ctx.explore(cases(), check, max_examples=ctx.n(300, 4000))
+    ctx.explore(cases(), check, max_examples=ctx.n(250, 4000))
 
 
 def replay(case) -> Case:
